@@ -1273,6 +1273,31 @@ def check_lapse(rec, case):
     if not ok.any():
         return
     p, T, es, be, x = p[ok], T[ok], es[ok], be[ok], x[ok]
+    # pressures and temperatures that broadcast against each other (a column of levels against a row of
+    # temperatures; a length-1 temperature): entry [i, j] is the rate for (p_i, T_j)
+    k = min(4, p.size)
+    if k >= 2:
+        rec.ev()
+        rec.count("lapse.broadcast_calls")
+        try:
+            with np.errstate(all="ignore"):
+                flat = np.asarray(atm.moist_lapse_rate(np.repeat(p[:k], k), np.tile(T[:k], k), **kw),
+                                  dtype=float).reshape(k, k)
+                for pa, Ta, ws in ((p[:k, None].copy(), T[:k].copy(), (k, k)),
+                                   (p[:k].copy(), T[:1].copy(), (k,))):
+                    got2 = np.asarray(atm.moist_lapse_rate(pa, Ta, **kw), dtype=float)
+                    ref2 = flat if ws == (k, k) else flat[:, 0]
+                    okm = np.isfinite(ref2)
+                    if got2.shape != ws or not np.all(np.abs(got2[okm] - ref2[okm]) <= 8 * am.U * np.abs(ref2[okm])):
+                        rec.violation("lapse-broadcast", case,
+                                      {"p_shape": list(np.shape(pa)), "T_shape": list(np.shape(Ta)),
+                                       "got_shape": list(got2.shape), "want_shape": list(ws)})
+                        break
+        except ContractBreach as exc:
+            rec.violation(exc.key, case, exc.detail)
+        except Exception as exc:
+            rec.violation(_exc_key(exc, "lapse-exception", case), case,
+                          dict(_exc_detail(exc), where="p and T broadcast against each other"))
     Mw, Md = (float(t) for t in am.molar_fractions())
     want, gd, A, B, w = am.lapse_ld(p, T, es, C.earth_standard_gravity,
                                     C.isobaric_mass_heat_capacity, C.heat_of_vaporization,
